@@ -37,6 +37,10 @@ PROJECT = {
     'lazyapp.ucg': 'let l = import "lazylib.ucg";\nout flags {p = l.port};\n',
     'lazysvc.ucg': 'let l = import "./lazylib.ucg";\nout env {P = l.port};\n',
     'lazylib2.ucg': 'let port = %s;\nlet g = func () => (import "nosuch.ucg").port;\n' % P(2),
+    # a file breaking the one-output rule with an import between its two outs: rejected whether or not an earlier file of
+    # the invocation already imported the same library
+    'twoout.ucg': 'out flags {a = 1};\nlet l = import "lib.ucg";\nout env {B = l.x};\n',
+    'twoout2.ucg': 'out flags {a = 1};\nlet l = import "noout.ucg";\nout flags {b = l.z};\n',
     'lazyapp2.ucg': 'let l = import "lazylib2.ucg";\nout flags {p = l.port};\n',
 }
 # a library reached through symbolic links from two directories, each next to its own settings file
@@ -58,6 +62,8 @@ def cases(tier):
     pairs += list(itertools.permutations(['c.ucg', 'libout.ucg', 'maybe.ucg'], 2))
     pairs += [('a.ucg', 'a.ucg'), ('libout.ucg', 'libout.ucg'), ('noout.ucg', 'a.ucg'), ('a.ucg', 'noout.ucg')]
     pairs += list(itertools.permutations(['lazylib.ucg', 'lazyapp.ucg', 'lazysvc.ucg'], 2)) + [('lazylib2.ucg', 'lazyapp2.ucg'), ('lazyapp2.ucg', 'lazylib2.ucg'), ('a.ucg', 'lazyapp.ucg'), ('lazyapp.ucg', 'a.ucg')]
+    pairs += [('a.ucg', 'twoout.ucg'), ('twoout.ucg', 'a.ucg'), ('noout.ucg', 'twoout.ucg'), ('lib.ucg', 'twoout.ucg'), ('a.ucg', 'twoout2.ucg'),
+              ('noout.ucg', 'twoout2.ucg'), ('twoout2.ucg', 'noout.ucg'), ('twoout.ucg', 'twoout2.ucg')]
     for p in pairs:
         cs.append({'batch': list(p)})
     trip = [('a.ucg', 'b.ucg', 'c.ucg'), ('b.ucg', 'libout.ucg', 'a.ucg'), ('fail.ucg', 'a.ucg', 'b.ucg'), ('libout.ucg', 'c.ucg', 'b.ucg')]
